@@ -1,1 +1,277 @@
-// placeholder
+//! C04 (accessor clause) — every accessor of every packet view over an arbitrary buffer of at
+//! least the minimum header size: no panic, no overflow, no out-of-bounds, every loop terminates.
+//!
+//! `buf: [u8; N]` symbolic, `len` symbolic in `[min, N]`; the view is built over `&buf[..len]`
+//! and every getter, `payload()`, `payload_raw()`, `extension()`, `get_options_raw()`, `header()`,
+//! `packet()` is called; iterators are run to exhaustion.
+use trippy_packet::icmp_extension::extension_header::ExtensionHeaderPacket;
+use trippy_packet::icmp_extension::extension_object::ExtensionObjectPacket;
+use trippy_packet::icmp_extension::extension_structure::ExtensionsPacket;
+use trippy_packet::icmp_extension::mpls_label_stack::MplsLabelStackPacket;
+use trippy_packet::icmp_extension::mpls_label_stack_member::MplsLabelStackMemberPacket;
+use trippy_packet::ipv4::Ipv4Packet;
+use trippy_packet::ipv6::Ipv6Packet;
+use trippy_packet::tcp::TcpPacket;
+use trippy_packet::udp::UdpPacket;
+use trippy_packet::{icmpv4, icmpv6};
+
+/// Buffer bound: 64 in the quick tier, 160 in the thorough tier (VERIF_THOROUGH set by check.py).
+const N: usize = if option_env!("VERIF_THOROUGH").is_some() { 160 } else { 64 };
+
+fn any_len(min: usize) -> usize {
+    let len: usize = kani::any();
+    kani::assume(len >= min && len <= N);
+    len
+}
+
+/// The slice lies inside the buffer (by address) — "never reads outside the message".
+fn inside(outer: &[u8], inner: &[u8]) {
+    let o0 = outer.as_ptr() as usize;
+    let i0 = inner.as_ptr() as usize;
+    assert!(inner.is_empty() || (i0 >= o0 && i0 + inner.len() <= o0 + outer.len()));
+}
+
+#[kani::proof]
+#[kani::unwind(6)]
+fn c04_acc_ipv4() {
+    let buf: [u8; N] = kani::any();
+    let len = any_len(20);
+    let p = Ipv4Packet::new_view(&buf[..len]).unwrap();
+    let _ = (p.get_version(), p.get_header_length(), p.get_dscp(), p.get_ecn(), p.get_tos());
+    let _ = (p.get_total_length(), p.get_identification(), p.get_flags_and_fragment_offset());
+    let _ = (p.get_ttl(), p.get_protocol(), p.get_checksum(), p.get_source(), p.get_destination());
+    inside(&buf[..len], p.get_options_raw());
+    inside(&buf[..len], p.payload());
+    inside(&buf[..len], p.packet());
+    kani::cover!(usize::from(p.get_header_length()) * 4 > len, "IHL beyond the buffer");
+    kani::cover!(p.get_header_length() < 5, "IHL below minimum");
+}
+
+#[kani::proof]
+#[kani::unwind(6)]
+fn c04_acc_ipv4_mut() {
+    let mut buf: [u8; N] = kani::any();
+    let len = any_len(20);
+    let mut p = Ipv4Packet::new(&mut buf[..len]).unwrap();
+    let l = p.get_options_raw_mut().len();
+    assert!(l <= 40);
+    let _ = p.payload().len();
+}
+
+#[kani::proof]
+#[kani::unwind(18)]
+fn c04_acc_ipv6() {
+    let buf: [u8; N] = kani::any();
+    let len = any_len(40);
+    let p = Ipv6Packet::new_view(&buf[..len]).unwrap();
+    let _ = (p.get_version(), p.get_traffic_class(), p.get_flow_label(), p.get_payload_length());
+    let _ = (p.get_next_header(), p.get_hop_limit(), p.get_source_address(), p.get_destination_address());
+    inside(&buf[..len], p.payload());
+    kani::cover!(usize::from(p.get_payload_length()) + 40 > len, "payload length beyond the buffer");
+    kani::cover!(len == 40, "header only");
+}
+
+#[kani::proof]
+#[kani::unwind(6)]
+fn c04_acc_udp() {
+    let buf: [u8; N] = kani::any();
+    let len = any_len(8);
+    let p = UdpPacket::new_view(&buf[..len]).unwrap();
+    let _ = (p.get_source(), p.get_destination(), p.get_length(), p.get_checksum());
+    inside(&buf[..len], p.payload());
+    kani::cover!(len == 8, "header only");
+}
+
+#[kani::proof]
+#[kani::unwind(6)]
+fn c04_acc_tcp() {
+    let buf: [u8; N] = kani::any();
+    let len = any_len(20);
+    let p = TcpPacket::new_view(&buf[..len]).unwrap();
+    let _ = (p.get_source(), p.get_destination(), p.get_sequence(), p.get_acknowledgement());
+    let _ = (p.get_data_offset(), p.get_reserved(), p.get_flags(), p.get_window_size());
+    let _ = (p.get_checksum(), p.get_urgent_pointer());
+    inside(&buf[..len], p.get_options_raw());
+    inside(&buf[..len], p.payload());
+    kani::cover!(usize::from(p.get_data_offset()) * 4 > len, "data offset beyond the buffer");
+}
+
+macro_rules! acc_icmp_generic {
+    ($name:ident, $fam:ident) => {
+        #[kani::proof]
+        #[kani::unwind(6)]
+        fn $name() {
+            let buf: [u8; N] = kani::any();
+            let len = any_len(8);
+            let p = $fam::IcmpPacket::new_view(&buf[..len]).unwrap();
+            let _ = (p.get_icmp_type(), p.get_icmp_code(), p.get_checksum());
+            inside(&buf[..len], p.packet());
+        }
+    };
+}
+acc_icmp_generic!(c04_acc_icmpv4, icmpv4);
+acc_icmp_generic!(c04_acc_icmpv6, icmpv6);
+
+macro_rules! acc_echo {
+    ($name:ident, $view:ty) => {
+        #[kani::proof]
+        #[kani::unwind(6)]
+        fn $name() {
+            let buf: [u8; N] = kani::any();
+            let len = any_len(8);
+            let p = <$view>::new_view(&buf[..len]).unwrap();
+            let _ = (p.get_icmp_type(), p.get_icmp_code(), p.get_checksum(), p.get_identifier(), p.get_sequence());
+            inside(&buf[..len], p.payload());
+        }
+    };
+}
+acc_echo!(c04_acc_icmpv4_echo_request, icmpv4::echo_request::EchoRequestPacket<'_>);
+acc_echo!(c04_acc_icmpv4_echo_reply, icmpv4::echo_reply::EchoReplyPacket<'_>);
+acc_echo!(c04_acc_icmpv6_echo_request, icmpv6::echo_request::EchoRequestPacket<'_>);
+acc_echo!(c04_acc_icmpv6_echo_reply, icmpv6::echo_reply::EchoReplyPacket<'_>);
+
+/// Time Exceeded / Destination Unreachable: payload(), payload_raw(), extension() for EVERY
+/// RFC 4884 length byte 0..=255 against every buffer length (quick: N = 64 cannot reach the
+/// 128-octet extension branch; the thorough tier uses N = 160; the branch structure for all
+/// lengths up to 1024 is covered content-independently by c14_split_all_lengths).
+macro_rules! acc_err {
+    ($name:ident, $view:ty, $mtu:expr) => {
+        #[kani::proof]
+        #[kani::unwind(6)]
+        fn $name() {
+            let buf: [u8; N] = kani::any();
+            let len = any_len(8);
+            let p = <$view>::new_view(&buf[..len]).unwrap();
+            let _ = (p.get_icmp_type(), p.get_icmp_code(), p.get_checksum(), p.get_length());
+            inside(&buf[..len], p.payload());
+            inside(&buf[..len], p.payload_raw());
+            if let Some(e) = p.extension() {
+                inside(&buf[..len], e);
+            }
+            kani::cover!(p.get_length() >= 64, "length byte whose scaling exceeds u8");
+            kani::cover!(p.get_length() == 255, "maximum length byte");
+            kani::cover!(N < 144 || p.extension().is_some(), "extension branch live (thorough tier)");
+        }
+    };
+}
+acc_err!(c04_acc_icmpv4_time_exceeded, icmpv4::time_exceeded::TimeExceededPacket<'_>, false);
+acc_err!(c04_acc_icmpv4_dest_unreach, icmpv4::destination_unreachable::DestinationUnreachablePacket<'_>, true);
+acc_err!(c04_acc_icmpv6_time_exceeded, icmpv6::time_exceeded::TimeExceededPacket<'_>, false);
+acc_err!(c04_acc_icmpv6_dest_unreach, icmpv6::destination_unreachable::DestinationUnreachablePacket<'_>, true);
+
+#[kani::proof]
+#[kani::unwind(6)]
+fn c04_acc_dest_unreach_mtu() {
+    let buf: [u8; N] = kani::any();
+    let len = any_len(8);
+    let p = icmpv4::destination_unreachable::DestinationUnreachablePacket::new_view(&buf[..len]).unwrap();
+    let _ = p.get_next_hop_mtu();
+    let q = icmpv6::destination_unreachable::DestinationUnreachablePacket::new_view(&buf[..len]).unwrap();
+    let _ = q.get_next_hop_mtu();
+}
+
+#[kani::proof]
+#[kani::unwind(6)]
+fn c04_acc_ext_header() {
+    let buf: [u8; N] = kani::any();
+    let len = any_len(4);
+    let p = ExtensionHeaderPacket::new_view(&buf[..len]).unwrap();
+    let _ = (p.get_version(), p.get_checksum());
+    inside(&buf[..len], p.packet());
+}
+
+/// Extension object accessors under the iterator's guarantee `4 <= length <= len`.
+#[kani::proof]
+#[kani::unwind(6)]
+fn c04_acc_ext_object_wellformed() {
+    let buf: [u8; N] = kani::any();
+    let len = any_len(4);
+    let p = ExtensionObjectPacket::new_view(&buf[..len]).unwrap();
+    let l = usize::from(p.get_length());
+    let _ = (p.get_class_num(), p.get_class_subtype());
+    kani::assume(l >= 4 && l <= len);
+    let pl = p.payload();
+    assert!(pl.len() == l - 4);
+    inside(&buf[..len], pl);
+}
+
+/// Extension object `payload()` called directly on an ARBITRARY buffer (the property's second
+/// sentence: every accessor over an arbitrary buffer of at least the minimum header size).
+#[kani::proof]
+#[kani::unwind(6)]
+fn c04_acc_ext_object_arbitrary() {
+    let buf: [u8; N] = kani::any();
+    let len = any_len(4);
+    let p = ExtensionObjectPacket::new_view(&buf[..len]).unwrap();
+    let pl = p.payload();
+    inside(&buf[..len], pl);
+    kani::cover!(usize::from(p.get_length()) < 4, "length below header");
+    kani::cover!(usize::from(p.get_length()) > len, "length beyond buffer");
+}
+
+#[kani::proof]
+#[kani::unwind(6)]
+fn c04_acc_mpls_member() {
+    let buf: [u8; N] = kani::any();
+    let len = any_len(4);
+    let p = MplsLabelStackMemberPacket::new_view(&buf[..len]).unwrap();
+    let _ = (p.get_label(), p.get_exp(), p.get_bos(), p.get_ttl());
+    assert!(p.get_label() < (1 << 20) && p.get_exp() < 8 && p.get_bos() < 2);
+}
+
+// ------------------------------------------------------------------ iterators terminate (H04c)
+const IT: usize = 32;
+
+/// ExtensionObjectIter over any <= 32-byte extension structure: terminates (unwinding assertion
+/// with bound N/4 + 2), every yielded object lies inside the buffer and satisfies
+/// `4 <= length <= remaining`, objects are consecutive and non-overlapping.
+#[kani::proof]
+#[kani::unwind(11)]
+fn c04_iter_objects_terminate() {
+    let buf: [u8; IT] = kani::any();
+    let len: usize = kani::any();
+    kani::assume(len >= 4 && len <= IT);
+    let e = ExtensionsPacket::new_view(&buf[..len]).unwrap();
+    inside(&buf[..len], e.header());
+    assert!(e.header().len() == 4);
+    let base = buf.as_ptr() as usize;
+    let mut expect_off = 4usize;
+    let mut n = 0usize;
+    for obj in e.objects() {
+        let off = obj.as_ptr() as usize - base;
+        assert!(off == expect_off, "objects are consecutive");
+        assert!(off + obj.len() == len, "yielded slice runs to the end of the structure");
+        let o = ExtensionObjectPacket::new_view(obj).unwrap();
+        let l = usize::from(o.get_length());
+        assert!(l >= 4 && l <= obj.len(), "4 <= length <= remaining");
+        let _ = o.payload();
+        expect_off = off + l;
+        n += 1;
+    }
+    assert!(n <= (IT - 4) / 4);
+    kani::cover!(n == 3, "three objects");
+    kani::cover!(n == 0 && len > 8, "malformed first object stops iteration");
+}
+
+#[kani::proof]
+#[kani::unwind(11)]
+fn c04_iter_mpls_terminate() {
+    let buf: [u8; IT] = kani::any();
+    let len: usize = kani::any();
+    kani::assume(len >= 4 && len <= IT);
+    let s = MplsLabelStackPacket::new_view(&buf[..len]).unwrap();
+    let base = buf.as_ptr() as usize;
+    let mut n = 0usize;
+    let mut last_bos = 0u8;
+    for m in s.members() {
+        assert!(last_bos == 0, "nothing is yielded after the bottom-of-stack member");
+        let off = m.as_ptr() as usize - base;
+        assert!(off == n * 4 && off + 4 <= len);
+        let mp = MplsLabelStackMemberPacket::new_view(m).unwrap();
+        last_bos = mp.get_bos();
+        n += 1;
+    }
+    assert!(n <= IT / 4);
+    kani::cover!(n == 8, "full stack");
+    kani::cover!(n == 1 && len >= 8, "bottom-of-stack ends iteration early");
+}
